@@ -82,6 +82,10 @@ M = [
     ('map-async-new-worker-does-not-wait-for-old', 'streamz/core.py', "        if previous is not None and not previous.done():\n", "        if False:\n", ['C02']),
     # map-async-worker-blind-to-stop-while-idle (wait for the job only): equivalent -- the stale worker takes one more job and
     # exits, the new worker waits for it, order is kept
+    ('textfile-named-file-translates-newlines', 'streamz/sources.py', "            f = open(f, newline='')", "            f = open(f)", ['C17']),
+    ('df-diff-loc-evicts-row-at-bound', 'streamz/dataframe/aggregations.py', "            o = dfs[0].loc[:mn - pd.Timedelta('1ns')]", "            o = dfs[0].loc[:mn]", ['C07']),
+    ('df-groupby-mean-residue-over-zero', 'streamz/dataframe/aggregations.py', "        return (totals / counts).where(counts > 0)", "        return totals / counts", ['C07']),
+    ('window-reset-index-drops-state', 'streamz/dataframe/core.py', "        return type(self)(self.root.reset_index(), n=self.n, value=self.value,\n                          with_state=self.with_state, start=self.start)", "        return type(self)(self.root.reset_index(), n=self.n, value=self.value)", ['C12']),
 ]
 
 
